@@ -98,7 +98,7 @@ def _laws(pi, ni):
                      nota=f':not({A})', notab=f':not({A}, {B})', wab=f':where({A}, {B})', mab=f':matches({A}, {B})',
                      star='*', x=X, xisa=f'{X}:is({A})', anyisa=f'*|*:is({A})', any='*|*', anynotab=f'*|*:not({A}, {B})',
                      anyisab=f'*|*:is({A}, {B})', anymab=f'*|*:matches({A}, {B})', anywab=f'*|*:where({A}, {B})',
-                     anynota=f'*|*:not({A})')
+                     anynota=f'*|*:not({A})', notesc=f':n\\6f t({A})', isesc=f':\\49s({A}, {B})', hasesc=f':h\\61s(> {A})', has=f':has(> {A})')
         c = {k: _sel(t, ns) for k, t in texts.items()}
         if any(v is None for v in c.values()):
             return False
@@ -114,6 +114,8 @@ def _laws(pi, ni):
             ok = ok and set(r['nota']) == set(r['star']) - set(r['isa'])
             ok = ok and set(r['notab']) == set(r['star']) - set(r['isab'])
             ok = ok and r['wab'] == r['isab'] and r['mab'] == r['isab']
+            # a pseudo-class name spelled with escapes is the same pseudo-class (negation, forgiving list, relative list)
+            ok = ok and r['notesc'] == r['nota'] and r['isesc'] == r['isab'] and r['hasesc'] == r['has']
             ok = ok and sa <= set(r['ab']) and sb <= set(r['ab'])
             ok = ok and set(r['xisa']) == set(r['x']) & set(r['anyisa'])
             if not (ns and '' in ns):
